@@ -89,12 +89,41 @@ def jac_products(cx, kind="pure", idxs=None, bshape=()):
     return "ok"
 
 
-def jac_differentiable(cx):
-    """products are differentiable w.r.t. the point and the parameters"""
+def jac_differentiable(cx, build="grad_on", which="jac"):
+    """products are differentiable w.r.t. the point and the parameters - whatever the autograd mode was when the operator
+    was BUILT (build='no_grad': constructed inside torch.no_grad(), products taken later with grad on; and the reverse:
+    constructed with grad on, a product taken under no_grad must not carry a graph but have the right value)"""
     x = cx.sym("x", (2,), requires_grad=True)
     A = cx.sym("A", (2, 2), requires_grad=True)
     s = cx.sym("s", (), requires_grad=True)
-    op = jac(_f, (x, A, s), idxs=0)
+    if which == "hess":
+        def phi(x_, A_, s_):
+            return (torch.matmul(A_, x_ * x_) * x_).sum() + s_ * (x_ * x_ * x_).sum()
+        if build == "no_grad":
+            with torch.no_grad():
+                op = hess(phi, (x, A, s), idxs=0)
+        else:
+            op = hess(phi, (x, A, s), idxs=0)
+        g0, = torch.autograd.grad(phi(x, A, s), x, create_graph=True)
+        Hd = _dense_jac(g0, x)
+        v = cx.sym("v", (2,))
+        w = cx.sym("w", (2,))
+        l1 = (w * op.mv(v)).sum()
+        l2 = (w * torch.matmul(Hd, v)).sum()
+        for nm, a, b in zip(["x", "A", "s"], grads(l1, [x, A, s]), grads(l2, [x, A, s])):
+            cx.claim_eq("d(w.Hv)/d" + nm, a, b)
+        return "ok"
+    if build == "no_grad":
+        with torch.no_grad():
+            op = jac(_f, (x, A, s), idxs=0)
+    else:
+        op = jac(_f, (x, A, s), idxs=0)
+        Jd = _dense_jac(_f(x, A, s), x).detach()
+        v0 = cx.sym("v0", (2,))
+        with torch.no_grad():
+            y0 = op.mv(v0)
+        cx.claim_true("a product taken under no_grad carries no graph", not y0.requires_grad)
+        cx.claim_eq("value of a product taken under no_grad", y0, torch.matmul(Jd, v0))
     J = _dense_jac(_f(x, A, s), x)
     v = cx.sym("v", (2,))
     u = cx.sym("u", (2,))
@@ -298,6 +327,9 @@ def configs(tier):
     add("jac/module/all", jac_products, kind="module", idxs=None)
     add("jac/module/int0/batch2", jac_products, kind="module", idxs=0, bshape=(2,))
     add("jac/differentiable", jac_differentiable)
+    add("jac/differentiable/built_under_no_grad", jac_differentiable, build="no_grad")
+    add("hess/differentiable/built_under_no_grad", jac_differentiable, build="no_grad", which="hess")
+    add("hess/differentiable", jac_differentiable, which="hess")
     add("jac/newparams", jac_newparams)
     add("jac/newparams/nondiff_args_first", jac_newparams_nd, which="jac")
     add("hess/newparams/nondiff_args_first", jac_newparams_nd, which="hess")
